@@ -379,7 +379,7 @@ func Gen(t *rapid.T, tier string) any {
 		default:
 			// A rule-changing admin call (any endpoint of the family), the
 			// updates loop and queries, concurrently.
-			op = Op{Kind: "par", Seed: rapid.Uint64().Draw(t, "par_seed"), Pct: rapid.SampledFrom([]int{20, 50, 80}).Draw(t, "par_pct")}
+			op = Op{Kind: "par", Seed: rapid.Uint64().Draw(t, "par_seed"), Pct: rapid.SampledFrom([]int{10, 20, 50, 80}).Draw(t, "par_pct")}
 			op.Sub = append(op.Sub, genRuleOp(t, &nextID))
 			for _, name := range rapid.SliceOfNDistinct(rapid.SampledFrom(queryNames), 1, 4, rapid.ID[string]).Draw(t, "par_names") {
 				q := genQuery(t)
